@@ -6,7 +6,10 @@ import (
 	"fmt"
 	"go/token"
 	"go/types"
+	"golang.org/x/tools/go/ssa"
 	"math"
+	"os"
+	"strings"
 
 	"zsym/smt"
 )
@@ -378,6 +381,25 @@ func (i *interpreter) concretizeInt(v value, lo, hi int64) int64 {
 	panic(pathAbort{kind: abortInfeasible, msg: "concretizeInt: empty range"})
 }
 
+// checkIndexRange decides 0 <= idx < n for a symbolic index (Go panic on the
+// other side) without concretising it.
+func (i *interpreter) checkIndexRange(s *Sym, n int) {
+	b := i.path.B
+	_, signed, _ := intInfo(s.K)
+	t64 := b.Resize(s.T, 64, signed)
+	in := b.And(b.BVBin(smt.OBVSle, b.BVC(64, 0), t64), b.BVBin(smt.OBVSlt, t64, b.BVC(64, uint64(n))))
+	if !i.decideT(in) {
+		if os.Getenv("ZSYM_DEBUG") != "" {
+			var pcs []string
+			for _, t := range i.path.pcTerms {
+				pcs = append(pcs, t.String())
+			}
+			i.path.Notes["DEBUG idx="+s.T.String()+" in="+in.String()+" pc="+strings.Join(pcs, " ∧ ")]++
+		}
+		panic(goPanic(fmt.Sprintf("runtime error: index out of range [symbolic] with length %d", n)))
+	}
+}
+
 // symIndexCheck decides 0 <= idx < n (n concrete) and returns a concrete
 // index, panicking Go-style on the out-of-range side.
 func (i *interpreter) checkIndex(idx value, n int) int {
@@ -390,13 +412,10 @@ func (i *interpreter) checkIndex(idx value, n int) int {
 		return int(x)
 	}
 	b := i.path.B
-	w, signed, _ := intInfo(s.K)
-	var in *smt.Term
-	if signed {
-		in = b.And(b.BVBin(smt.OBVSle, b.BVC(w, 0), s.T), b.BVBin(smt.OBVSlt, s.T, b.BVC(w, uint64(n))))
-	} else {
-		in = b.BVBin(smt.OBVUlt, s.T, b.BVC(w, uint64(n)))
-	}
+	_, signed, _ := intInfo(s.K)
+	// compare in 64 bits so that lengths beyond the index type's range work
+	t64 := b.Resize(s.T, 64, signed)
+	in := b.And(b.BVBin(smt.OBVSle, b.BVC(64, 0), t64), b.BVBin(smt.OBVSlt, t64, b.BVC(64, uint64(n))))
 	if !i.decideT(in) {
 		panic(goPanic(fmt.Sprintf("runtime error: index out of range [symbolic] with length %d", n)))
 	}
@@ -404,3 +423,66 @@ func (i *interpreter) checkIndex(idx value, n int) int {
 }
 
 const smtSlt = smt.OBVSlt
+
+// symSelect reads elems[idx] for a symbolic index without forking when all
+// elements are scalars of one kind: the result is an ite over runs of equal
+// values.  The caller has established 0 <= idx < len(elems).
+func (i *interpreter) symSelect(elems []value, idx *Sym) (value, bool) {
+	if len(elems) < 4 {
+		return nil, false
+	}
+	k0 := kindOf(elems[0])
+	if k0 == types.Invalid {
+		return nil, false
+	}
+	for _, e := range elems {
+		if kindOf(e) != k0 {
+			return nil, false
+		}
+	}
+	b := i.path.B
+	_, signed, _ := intInfo(idx.K)
+	t64 := b.Resize(idx.T, 64, signed)
+	// runs of identical terms
+	type run struct {
+		lo, hi int
+		t      *smt.Term
+	}
+	var runs []run
+	for k, e := range elems {
+		t := i.term(e)
+		if n := len(runs); n > 0 && runs[n-1].t == t {
+			runs[n-1].hi = k
+			continue
+		}
+		runs = append(runs, run{k, k, t})
+	}
+	if len(runs) > 600 {
+		return nil, false
+	}
+	acc := runs[len(runs)-1].t
+	for r := len(runs) - 2; r >= 0; r-- {
+		// idx <= hi (runs are visited in increasing order, so lo is implied)
+		c := b.BVBin(smt.OBVSle, t64, b.BVC(64, uint64(runs[r].hi)))
+		acc = b.Ite(c, runs[r].t, acc)
+	}
+	return mkScalar(acc, k0), true
+}
+
+// onlyLoaded reports whether every use of the address computed by instr is a load.
+func onlyLoaded(instr *ssa.IndexAddr) bool {
+	refs := instr.Referrers()
+	if refs == nil || len(*refs) == 0 {
+		return false
+	}
+	for _, r := range *refs {
+		u, ok := r.(*ssa.UnOp)
+		if !ok || u.Op != token.MUL {
+			if _, isDbg := r.(*ssa.DebugRef); isDbg {
+				continue
+			}
+			return false
+		}
+	}
+	return true
+}
